@@ -152,8 +152,8 @@ PROPS = {
     "C10": {"translate": ["rodeo", "threaded", "clone", "iters"], "streams": s_C10, "monitors": ["C10"]},
     "C12": {"translate": ["arena", "rodeo", "clone"], "streams": s_C12, "monitors": ["C12", "C01", "C02"]},
     "C13": {"translate": ["arena", "rodeo"], "streams": s_C13, "monitors": ["C13", "C01", "C02", "C07", "C08", "C10"]},
-    "C14": {"streams": s_C14, "monitors": ["C14", "C01", "C02", "C10", "EXP"], "conc_monitors": ["C14"]},
-    "C15": {"streams": s_C15, "monitors": ALLMON},
+    "C14": {"translate": ["serde"], "streams": s_C14, "monitors": ["C14", "C01", "C02", "C10", "EXP"], "conc_monitors": ["C14"]},
+    "C15": {"translate": ["serde"], "streams": s_C15, "monitors": ALLMON},
     "C16": {"translate": ["rodeo", "threaded"], "streams": s_C16, "monitors": ["C16"], "conc_monitors": ["C16"], "forwarding": True, "facts": "forwarding", "props_extra": ["C16F"]},
     "C17": {"streams": s_C17, "monitors": ["C17"], "forwarding": True, "facts": "forwarding", "props_extra": ["C17F"]},
     "C18": {"streams": s_C18, "monitors": ["C18"]},
